@@ -36,6 +36,9 @@ pub enum Stmt {
     AllSettled(Vec<u8>),
     /// `__cancelOrder__(i)`
     Cancel(u8),
+    /// `[q_a, q_b, ...] = [{k:a},{k:b},...].map(order)`: several orders issued in one go through a
+    /// native; the program gets markers and keeps running. A marker is awaited with AwaitQ.
+    Batch(Vec<u8>),
 }
 
 #[derive(Clone, Debug, Serialize, Deserialize)]
@@ -94,6 +97,12 @@ pub fn render(scn: &Scn) -> String {
                 )
             }
             Stmt::Cancel(i) => (format!("__cancelOrder__({i}); L.push(\"x{i}\");"), String::new()),
+            Stmt::Batch(v) => {
+                let qs: Vec<String> = v.iter().map(|i| format!("q{}", i)).collect();
+                let ps: Vec<String> = v.iter().map(|i| format!("{{ k: {} }}", i)).collect();
+                let ids: Vec<String> = v.iter().map(|i| i.to_string()).collect();
+                (format!("[{}] = [{}].map(order); L.push(\"b{}\");", qs.join(", "), ps.join(", "), ids.join("_")), String::new())
+            }
         };
         if c.is_empty() {
             s.push_str(&x);
@@ -134,6 +143,8 @@ enum QVal {
     Undefined,
     Val(i64),
     Prom(usize), // promise of order i (index = order number)
+    /// marker of order i issued in a batch: awaiting it blocks until the host has answered order i
+    Marker(u8),
 }
 
 #[derive(Clone, Debug, PartialEq)]
@@ -243,6 +254,7 @@ impl<'a> Model<'a> {
         match &self.q[i as usize] {
             QVal::Unset | QVal::Undefined => (false, Some(Ok("undefined".into()))),
             QVal::Val(v) => (false, Some(Ok(v.to_string()))),
+            QVal::Marker(_) => (false, Some(Ok("{}".into()))),
             QVal::Prom(p) => match self.prom[*p].as_ref() {
                 Some(PState::Ful(v)) => (true, Some(Ok(v.to_string()))),
                 Some(PState::Rej(m)) => (true, Some(Err(m.clone()))),
@@ -317,6 +329,26 @@ impl<'a> Model<'a> {
                         }
                         _ => return Block::Promises,
                     }
+                }
+                Stmt::Batch(v) => {
+                    for i in &v {
+                        self.issued.push(*i);
+                        self.newly_issued.push(*i);
+                        self.q[*i as usize] = QVal::Marker(*i);
+                    }
+                    let ids: Vec<String> = v.iter().map(|i| i.to_string()).collect();
+                    self.log.push(format!("b{}", ids.join("_")));
+                    self.next();
+                }
+                Stmt::AwaitQ(i) if matches!(self.q[i as usize], QVal::Marker(_)) => {
+                    if !self.answered[i as usize] {
+                        return Block::Order(i);
+                    }
+                    match self.ans(i).clone() {
+                        Ans::Error => self.log.push(format!("cw{}={}", i, err_of(i))),
+                        _ => self.log.push(format!("w{}={}", i, val_of(i))),
+                    }
+                    self.next();
                 }
                 Stmt::AwaitQ(i) => match self.qstate(i) {
                     (_, Some(Ok(v))) => {
@@ -468,10 +500,12 @@ pub fn generate_scn(rng: &mut Rng, allow_any_allsettled: bool, trailing_order: b
     // which orders are kept in q variables as promises (not yet consumed)
     let mut open_q: Vec<u8> = Vec::new(); // issued, value-or-promise in q_i, awaitable
     let mut cancelled: Vec<u8> = Vec::new();
+    let mut markers: Vec<u8> = Vec::new(); // issued in a batch, not yet awaited
+    let batches = rng.chance(0.4);
     let mut next: u8 = 1;
     let total = n_orders as u8;
     let mut guard = 0;
-    while (next <= total || !open_q.is_empty()) && guard < 40 {
+    while (next <= total || !open_q.is_empty() || !markers.is_empty()) && guard < 60 {
         guard += 1;
         let callee = rng.chance(0.3);
         wrap_draws.push(rng.below(4) as u8);
@@ -496,6 +530,23 @@ pub fn generate_scn(rng: &mut Rng, allow_any_allsettled: bool, trailing_order: b
             stmts.push((Stmt::Issue(next), callee));
             open_q.push(next);
             next += 1;
+        } else if batches && next < total && r >= 60 && r < 72 {
+            // a batch of 2..=3 orders through a native; answers are immediate values or errors
+            // (KF-C07-6: a marker answered with a promise yields the promise itself when awaited)
+            let n = (2 + rng.below(2)).min((total - next + 1) as usize);
+            let mut v = Vec::new();
+            for _ in 0..n {
+                answers.push(if rng.chance(0.25) { Ans::Error } else { Ans::Value });
+                v.push(next);
+                markers.push(next);
+                next += 1;
+            }
+            stmts.push((Stmt::Batch(v), false));
+        } else if !markers.is_empty() && r >= 72 && r < 86 {
+            // await one marker (each marker once), in any order relative to the batch
+            let k = rng.below(markers.len());
+            let i = markers.remove(k);
+            stmts.push((Stmt::AwaitQ(i), callee));
         } else if !open_q.is_empty() && r < 80 {
             let k = rng.below(open_q.len());
             let i = open_q.remove(k);
@@ -533,6 +584,9 @@ pub fn generate_scn(rng: &mut Rng, allow_any_allsettled: bool, trailing_order: b
             }
         } else if !can_issue && !open_q.is_empty() {
             let i = open_q.remove(0);
+            stmts.push((Stmt::AwaitQ(i), callee));
+        } else if !can_issue && !markers.is_empty() {
+            let i = markers.remove(0);
             stmts.push((Stmt::AwaitQ(i), callee));
         }
     }
@@ -577,6 +631,7 @@ pub fn execute_scn(scn: &Scn, rep: &mut RunReport) {
     let mut cancelled_seen: Vec<u64> = Vec::new();
     let mut unanswered: Vec<(u64, u8)> = Vec::new(); // (id, order number)
     let mut answered_ids: Vec<u64> = Vec::new();
+    let batch_orders: Vec<u8> = scn.stmts.iter().flat_map(|(st, _)| if let Stmt::Batch(v) = st { v.clone() } else { Vec::new() }).collect();
     let mut promises: Vec<HostPromise> = Vec::new();
     let mut keep: Vec<RuntimeValue> = Vec::new();
     let mut fruitless = 0u32;
@@ -655,7 +710,8 @@ pub fn execute_scn(scn: &Scn, rep: &mut RunReport) {
                 if unanswered.is_empty() && open_promises.is_empty() {
                     fruitless += 1;
                     rep.bump("suspended_with_no_obligation", 1);
-                    if fruitless > 3 && rep.failure.is_none() {
+                    // the property allows no Suspended at all with nothing left for the host to do
+                    if fruitless > 0 && rep.failure.is_none() {
                         fail(rep, "suspended_with_nothing_outstanding", trace.clone(),
                             json!({"trace": trace, "model_block": format!("{:?}", expected_block), "model_log": model.log}));
                     }
@@ -695,7 +751,12 @@ pub fn execute_scn(scn: &Scn, rep: &mut RunReport) {
                 let do_answer = if !unanswered.is_empty() && !open_promises.is_empty() { tape.next(2) == 0 } else { !unanswered.is_empty() };
                 if do_answer {
                     let (id, k) = unanswered.remove(tape.next(unanswered.len()));
-                    answered_ids.push(id);
+                    // a duplicate answer to a batch order could arrive before the program has taken
+                    // the first one (which of the two it then sees is not specified): duplicates are
+                    // only sent for orders the program was blocked on
+                    if !batch_orders.contains(&k) {
+                        answered_ids.push(id);
+                    }
                     let ans = scn.answers.get(k as usize - 1).cloned().unwrap_or(Ans::Value);
                     let res: Result<RuntimeValue, JsError> = match ans {
                         Ans::Value => Ok(RuntimeValue::unguarded(JsValue::Number(val_of(k) as f64))),
